@@ -99,7 +99,7 @@ MUTATIONS = [
         (IOS, "\tvoid wake()\n\t{\n\t\tinterrupter_.notify();\n\t}", "\tvoid wake()\n\t{\n\t\tif(wake_pending_)\n\t\t\treturn;\n\t\twake_pending_ = true;\n\t\tinterrupter_.notify();\n\t}"),
         (IOS, "\t\t\t\tinterrupter_.clean();\n", "\t\t\t\tinterrupter_.clean();\n\t\t\t\twake_pending_ = false;\n"),
         (IOS, "\tunsigned seed_;\n", "\tunsigned seed_;\n\tbool wake_pending_ = false;\n")]),
-    # reverts fix b2c5482: a descriptor operation is executed directly although earlier ones are still queued
+    # reverts fix 4a502e5: a descriptor operation is executed directly although earlier ones are still queued
     dict(name="fd-ops-fifo-regression", edits=[(IOS, "if(polling_ || !reactor_.get() || deferred_fd_ops_ > 0) {", "if(polling_ || !reactor_.get()) {")]),
     # S(i): cancel_timer_event leaves the (now handler-less) registration in the timer table
     dict(name="timer-cancel-keeps-registration", edits=[(IOS, "\t\ttimer_events_.erase(evptr);\n\t\ttimer_events_index_[event_id]=timer_events_.end();\n\n\t\tif(polling_)", "\n\t\tif(polling_)")]),
